@@ -35,6 +35,7 @@ type histCfg struct {
 	mid                  []string // ops allowed at the first wager request: arrive addon-part rebuy-part leave-sitout leave-part none
 	finish               []string // settlement-finished policies available: all none first
 	newStack             int64
+	between2             bool     // a second operation may follow the first in the same gap between hands
 	advance              int64    // seconds the clock moves before every wager action
 	race                 *raceCfg // one operation issued concurrently with the response that ends hand 1 (racing settlement / continue)
 	panicsAreDiagnostics bool // a panic in a system goroutine is recorded as a diagnostic, not attributed to this property
@@ -216,6 +217,14 @@ func (h *hist) apply(op string) string {
 			}
 		}
 		return fmt.Sprintf("%s(%s@%d)", op, id, seat)
+	case "join-sitout":
+		for _, p := range t.State.PlayerStates {
+			if !p.IsIn {
+				td.join(p.PlayerID)
+				return fmt.Sprintf("join-sitout(%s)", p.PlayerID)
+			}
+		}
+		return op + ":nobody"
 	case "rebuy", "rebuy-part", "topup":
 		var c []string
 		for _, p := range t.State.PlayerStates {
@@ -441,6 +450,12 @@ func runHist0(prefix []int, hc *histCfg, vcfg vrt.Config, mk func(h *hist) []Mon
 				op := hc.between[env.ChooseDev(len(hc.between), "between")]
 				d := h.apply(op)
 				h.events = append(h.events, d)
+				if hc.between2 && op != "none" {
+					td.env.Settle()
+					if op2 := hc.between[env.ChooseDev(len(hc.between), "between-2nd")]; op2 != "none" {
+						h.events = append(h.events, "then:"+h.apply(op2))
+					}
+				}
 			}
 			pickHand(hand + 1)
 		}
